@@ -93,7 +93,9 @@ type Case struct {
 	Cuts        []int  `json:"cuts,omitempty"`
 	StreamLen   int    `json:"stream_len,omitempty"`
 	// value of the grpc-encoding header when it is not the encoding's own name: "-" = header absent
-	EncodingHeader string `json:"grpc_encoding_header,omitempty"`
+	EncodingHeader        string `json:"grpc_encoding_header,omitempty"`
+	HeaderOrder           int    `json:"header_order,omitempty"` // see config.hdrOrder
+	ResponseOnlyProcessor bool   `json:"response_only_processor,omitempty"`
 	// chunk indexes (0..number of chunks) before which an empty DATA frame without END_STREAM is inserted
 	EmptyBefore []int `json:"empty_data_frame_before_chunk,omitempty"`
 	// duplex: History holds the client->server and the server->client half of ONE stream
@@ -106,12 +108,19 @@ type Case struct {
 }
 
 type config struct {
-	msgs   []msgSpec
-	enc    int
-	pl     int
-	dir    int
-	ct     string
-	encHdr string // "" = the encoding's own name; "-" = no grpc-encoding header; "<empty>" = empty value; else the literal value
+	msgs []msgSpec
+	enc  int
+	pl   int
+	dir  int
+	ct   string
+	// hdrOrder: position of grpc-encoding relative to content-type in the header block that carries both:
+	// 0 content-type, grpc-encoding (adjacent); 1 grpc-encoding, content-type (adjacent); 2 grpc-encoding, other
+	// fields, content-type; 3 content-type, other fields, grpc-encoding
+	hdrOrder int
+	// respOnly: the factory returns a processor for the server->client direction only (the request is not seen
+	// by any adapter, so the response headers alone decide whether the stream is gRPC)
+	respOnly bool
+	encHdr   string // "" = the encoding's own name; "-" = no grpc-encoding header; "<empty>" = empty value; else the literal value
 }
 
 func (c config) encHeader() (string, bool) {
@@ -139,7 +148,7 @@ func (c config) isGRPC() bool {
 }
 
 func (c config) toCase(cuts []int, L int) Case {
-	cs := Case{Encoding: encNames[c.enc], EncodingHeader: c.encHdr, EndStream: plNames[c.pl], Direction: dirNames[c.dir], ContentType: c.ct, Cuts: append([]int{}, cuts...), StreamLen: L, Sizes: []int{}, Compressed: []bool{}}
+	cs := Case{Encoding: encNames[c.enc], EncodingHeader: c.encHdr, HeaderOrder: c.hdrOrder, ResponseOnlyProcessor: c.respOnly, EndStream: plNames[c.pl], Direction: dirNames[c.dir], ContentType: c.ct, Cuts: append([]int{}, cuts...), StreamLen: L, Sizes: []int{}, Compressed: []bool{}}
 	for _, m := range c.msgs {
 		cs.Sizes = append(cs.Sizes, m.Size)
 		cs.Compressed = append(cs.Compressed, m.Compressed)
@@ -164,6 +173,7 @@ func caseToConfig(cs Case) (config, error) {
 		return -1
 	}
 	c.enc, c.pl, c.dir, c.ct, c.encHdr = find(encNames, cs.Encoding), find(plNames, cs.EndStream), find(dirNames, cs.Direction), cs.ContentType, cs.EncodingHeader
+	c.hdrOrder, c.respOnly = cs.HeaderOrder, cs.ResponseOnlyProcessor
 	if c.enc < 0 || c.pl < 0 || c.dir < 0 {
 		return c, fmt.Errorf("bad encoding/end_stream_on/direction in replay")
 	}
@@ -417,28 +427,49 @@ var theURL, _ = url.Parse("https://example.com/svc.Test/Method")
 
 func newItem(cfg config) *item {
 	it := &item{cfg: cfg, b: build(cfg.msgs, cfg.enc), viol: map[string]*vbest{}}
-	req := func(ct, enc string, withEnc bool) []hpack.HeaderField {
-		h := []hpack.HeaderField{{Name: ":method", Value: "POST"}, {Name: ":scheme", Value: "https"}, {Name: ":path", Value: "/svc.Test/Method"},
-			{Name: ":authority", Value: "example.com"}, {Name: "content-type", Value: ct}}
+	// middle lays out content-type, grpc-encoding and the other regular fields in the configured order
+	middle := func(order int, ct, enc string, withEnc bool, others []hpack.HeaderField) []hpack.HeaderField {
+		ctf := hpack.HeaderField{Name: "content-type", Value: ct}
+		var encf []hpack.HeaderField
 		if withEnc {
-			h = append(h, hpack.HeaderField{Name: "grpc-encoding", Value: enc})
+			encf = []hpack.HeaderField{{Name: "grpc-encoding", Value: enc}}
 		}
-		return append(h, hpack.HeaderField{Name: "te", Value: "trailers"})
+		var h []hpack.HeaderField
+		switch order {
+		case 1:
+			h = append(append(append(h, encf...), ctf), others...)
+		case 2:
+			h = append(append(append(h, encf...), others...), ctf)
+		case 3:
+			h = append(append(append(h, ctf), others...), encf...)
+		default:
+			h = append(append(append(h, ctf), encf...), others...)
+		}
+		return h
+	}
+	req := func(order int, ct, enc string, withEnc bool) []hpack.HeaderField {
+		h := []hpack.HeaderField{{Name: ":method", Value: "POST"}, {Name: ":scheme", Value: "https"}, {Name: ":path", Value: "/svc.Test/Method"}, {Name: ":authority", Value: "example.com"}}
+		others := []hpack.HeaderField{{Name: "te", Value: "trailers"}}
+		if order != 0 {
+			others = append(others, hpack.HeaderField{Name: "user-agent", Value: "c11/1.0"}, hpack.HeaderField{Name: "x-trace", Value: "abc"})
+		}
+		return append(h, middle(order, ct, enc, withEnc, others)...)
 	}
 	encVal, withEnc := cfg.encHeader()
 	if cfg.dir == dirC2S {
-		it.hdr0 = req(cfg.ct, encVal, withEnc)
+		it.hdr0 = req(cfg.hdrOrder, cfg.ct, encVal, withEnc)
 	} else {
 		// the request direction announces a *different* encoding: the two directions keep separate state
 		other := "gzip"
 		if cfg.enc == encGzip {
 			other = "deflate"
 		}
-		it.pre = req(cfg.ct, other, true)
-		it.hdr0 = []hpack.HeaderField{{Name: ":status", Value: "200"}, {Name: "content-type", Value: cfg.ct}}
-		if withEnc {
-			it.hdr0 = append(it.hdr0, hpack.HeaderField{Name: "grpc-encoding", Value: encVal})
+		it.pre = req(0, cfg.ct, other, true)
+		var others []hpack.HeaderField
+		if cfg.hdrOrder != 0 {
+			others = []hpack.HeaderField{{Name: "server", Value: "c11"}, {Name: "x-trace", Value: "abc"}}
 		}
+		it.hdr0 = append([]hpack.HeaderField{{Name: ":status", Value: "200"}}, middle(cfg.hdrOrder, cfg.ct, encVal, withEnc, others)...)
 		if cfg.pl == plHeadersOnly {
 			// a Trailers-Only response: the status travels in the only HEADERS frame, which ends the stream
 			it.hdr0 = append(it.hdr0, hpack.HeaderField{Name: "grpc-status", Value: "12"}, hpack.HeaderField{Name: "grpc-message", Value: "unimplemented"})
@@ -518,10 +549,16 @@ func errClass(err error) string {
 
 // recFactory is the grpc.ProcessorFactory under which every stream gets a fresh recording pass-through
 // processor pair; the harness picks the pair up right after the stream's processors have been created.
-type recFactory struct{ lastC, lastS *procRec }
+type recFactory struct {
+	lastC, lastS *procRec
+	onlyS        bool // hand out a processor for the server->client direction only
+}
 
 func (f *recFactory) make(_ *url.URL, server, client mgrpc.Processor) (mgrpc.Processor, mgrpc.Processor) {
 	f.lastC, f.lastS = &procRec{dest: server}, &procRec{dest: client}
+	if f.onlyS {
+		return nil, f.lastS
+	}
 	return f.lastC, f.lastS
 }
 
@@ -572,6 +609,7 @@ func (it *item) startDuplex(req *streamRun, cuts []int) *streamRun {
 func (it *item) start(rf *recFactory, factory h2.StreamProcessorFactory, cuts []int) *streamRun {
 	r := &streamRun{it: it, sinkC: &sinkRec{}, sinkS: &sinkRec{}}
 	rf.lastC, rf.lastS = nil, nil
+	rf.onlyS = it.cfg.respOnly
 	func() {
 		defer func() {
 			if p := recover(); p != nil {
@@ -581,6 +619,9 @@ func (it *item) start(rf *recFactory, factory h2.StreamProcessorFactory, cuts []
 		r.c2s, r.s2c = factory(theURL, h2.NewProcessorsForVerif(r.sinkC, r.sinkS))
 	}()
 	r.procC, r.procS = rf.lastC, rf.lastS
+	if r.c2s == nil && it.cfg.respOnly && r.s2c != nil {
+		r.c2s = r.sinkC // what h2.go does with a nil processor: the direction goes straight to the relay
+	}
 	if len(r.syms) > 0 || r.c2s == nil || r.s2c == nil || r.procC == nil || r.procS == nil {
 		if len(r.syms) == 0 {
 			r.syms = append(r.syms, symptom{"setup:nil_processor", "factory returned a nil h2.Processor for a non-nil grpc.Processor"})
@@ -680,6 +721,9 @@ func (r *streamRun) finish() []symptom {
 	if cfg.ct != "application/grpc" && len(proc.calls) == 0 && diffPassThrough(src, sink.ev) == "" {
 		return append(syms, symptom{"detect:content_type_with_subtype:stream_not_processed",
 			fmt.Sprintf("content-type %q is a gRPC content-type (application/grpc[+subtype]) but the stream was relayed as non-gRPC: the processor saw no header and none of the %d messages", cfg.ct, len(b.plain))})
+	}
+	if cfg.respOnly && cfg.dir == dirS2C && wantOther == 1 {
+		wantOther = 0 // no processor sits in the request direction
 	}
 	if wantOther >= 0 && len(otherProc.calls) != wantOther {
 		syms = append(syms, symptom{"cross_direction:processor_calls", fmt.Sprintf("the opposite direction's processor saw %d calls, want %d", len(otherProc.calls), wantOther)})
